@@ -285,3 +285,22 @@ def rawOf(c: "Node") -> Str:
             return s
         case _:
             return ""
+
+
+@spec
+def nappend(a: "NodeList", b: "NodeList") -> "NodeList":
+    "list concatenation on child lists"
+    match a:
+        case NNil():
+            return b
+        case NCons(c, r):
+            return NCons(c, nappend(r, b))
+
+
+@spec
+def allMeta(l: "NodeList") -> Bool:
+    match l:
+        case NNil():
+            return True
+        case NCons(c, r):
+            return isMeta(c) and allMeta(r)
